@@ -254,9 +254,24 @@ func lockCtx(c *Ctx, only *ssa.Function) {
 	}
 	sort.Slice(roots, func(i, j int) bool { return fnKey(roots[i]) < fnKey(roots[j]) })
 	n := 0
+	// functions that run only as part of DB.Merge (which takes no lock of its own): their obligations carry
+	// a tag, so that the one design-level finding "Merge runs unlocked" covers them wherever the code moves
+	mergeFn := c.P.MustFunc("(*DB).Merge")
+	var others []*ssa.Function
+	for m := range a.entries {
+		if m != mergeFn {
+			others = append(others, m)
+		}
+	}
+	otherCone := c.P.Cone(nil, others...)
+	mergeCone := c.P.Cone(nil, mergeFn)
 	for _, f := range c.P.ModCone(roots...) {
 		if f.Pkg != c.P.Main {
 			continue
+		}
+		tag := ""
+		if mergeCone[f] && !otherCone[f] {
+			tag = " [merge cone]"
 		}
 		type acc struct {
 			field string
@@ -313,7 +328,7 @@ func lockCtx(c *Ctx, only *ssa.Function) {
 			if k.write {
 				kind = "write"
 			}
-			det := fmt.Sprintf("%s of DB.%s under the database lock", kind, k.field)
+			det := fmt.Sprintf("%s of DB.%s under the database lock%s", kind, k.field, tag)
 			if p := bad[k]; p != nil {
 				ctx := "the function can be entered without the lock"
 				if a.held[f] {
@@ -440,7 +455,21 @@ func ruleTxPairing(c *Ctx) {
 			isFinish := func(name string) func(ssa.Instruction) bool {
 				return func(in ssa.Instruction) bool {
 					cc := callOf(in)
-					return cc != nil && calleeIs(cc, modPath, "Tx", name) && sameValue(cc.Args[0], txv)
+					if cc == nil {
+						return false
+					}
+					if calleeIs(cc, modPath, "Tx", name) && sameValue(cc.Args[0], txv) {
+						return true
+					}
+					// a wrapper that finishes the transaction it is handed on every path
+					if cal := cc.StaticCallee(); cal != nil && c.P.inModule(cal) && cal.Blocks != nil {
+						for j, a := range cc.Args {
+							if sameValue(a, txv) && j < len(cal.Params) && finishesTx(c, cal, cal.Params[j], name, 0) {
+								return true
+							}
+						}
+					}
+					return false
 				}
 			}
 			isCommit, isRollback := isFinish("Commit"), isFinish("Rollback")
@@ -567,4 +596,31 @@ func isIndexObjectType(t types.Type) bool {
 		return false
 	}
 	return strings.HasPrefix(n.Obj().Pkg().Path(), modPath)
+}
+
+// finishesTx: every path through w from its entry to a return passes Tx.<name>(p) (directly or through
+// another such wrapper): w releases the transaction it is handed.
+func finishesTx(c *Ctx, w *ssa.Function, p *ssa.Parameter, name string, depth int) bool {
+	if depth > 2 || len(w.Blocks) == 0 {
+		return false
+	}
+	is := func(in ssa.Instruction) bool {
+		cc := callOf(in)
+		if cc == nil {
+			return false
+		}
+		if calleeIs(cc, modPath, "Tx", name) && len(cc.Args) > 0 && sameValue(cc.Args[0], p) {
+			return true
+		}
+		if cal := cc.StaticCallee(); cal != nil && cal != w && c.P.inModule(cal) && cal.Blocks != nil {
+			for j, a := range cc.Args {
+				if sameValue(a, p) && j < len(cal.Params) && finishesTx(c, cal, cal.Params[j], name, depth+1) {
+					return true
+				}
+			}
+		}
+		return false
+	}
+	isRet := func(in ssa.Instruction) bool { _, ok := in.(*ssa.Return); return ok }
+	return findPath(w, nil, isRet, is, nil) == nil
 }
